@@ -184,6 +184,11 @@ def answer (line : String) : String :=
     match bytesOfHexStr h with
     | some t => showOutVal (parseOf ty t)
     | none => "bad-request"
+  | "disk" :: _ty :: vals =>
+    -- storage sort order: only the dense cmp-ranks are needed
+    let vs := vals.map parseVal
+    if vs.any Option.isNone then "bad-request"
+    else "rank:" ++ ",".intercalate ((denseRanks (vs.filterMap id)).map toString)
   | "sql" :: _ty :: vals =>
     let vs := vals.map parseVal
     if vs.any Option.isNone then "bad-request"
